@@ -30,7 +30,8 @@ theorem limit_refuses_new_key (T : Nat) (hT : legalThreshold T = true) (D : Dige
     (habsent : dictLookup m.toList k = none)
     (hfull : firstLevelGroupCount m k ≥ cfg.climit + 1) :
     m.set cfg k v c = .error .collisionLimit := by
-  have hs := OMap.set_spec hT hcfg h hk hv c hc
+  have _ := hc
+  have hs := OMap.set_spec hT hcfg h hk hv c
   apply hs.1
   rw [tlimited_iff hT h.tree h.sinv]
   exact ⟨(dictLookup_none_iff h.allKeyOk hk).mp habsent, hfull⟩
@@ -41,7 +42,8 @@ theorem limit_allows_update_and_room (T : Nat) (hT : legalThreshold T = true) (D
     (v : Elem) (hv : ValueOkM v) (c : Ctx) (hc : CtxOk m c)
     (hroom : (dictLookup m.toList k).isSome ∨ firstLevelGroupCount m k < cfg.climit + 1) :
     ∃ old m' c', m.set cfg k v c = .ok (old, m', c') := by
-  have hs := OMap.set_spec hT hcfg h hk hv c hc
+  have _ := hc
+  have hs := OMap.set_spec hT hcfg h hk hv c
   have hnl : ¬ TLimited cfg m.d m.root k := by
     intro hl
     rw [tlimited_iff hT h.tree h.sinv] at hl
